@@ -2,6 +2,7 @@ package core
 
 import (
 	"go/types"
+	"strings"
 
 	"golang.org/x/tools/go/ssa"
 )
@@ -40,13 +41,13 @@ type Taint struct {
 	// FieldSensitive: a tainted pointer/struct value taints its fields only when
 	// it is "deep" tainted (it was filled by a decoder / external writer).
 	FieldSensitive bool
-	deep    map[ssa.Value]bool
-	vals    map[ssa.Value]bool
-	from    map[ssa.Value]ssa.Value // provenance for path reconstruction
-	fields  map[*types.Var]ssa.Value
-	globals map[*ssa.Global]ssa.Value
-	rets    map[*ssa.Function]map[int]ssa.Value // tainted result indices per function
-	work    []ssa.Value
+	deep           map[ssa.Value]bool
+	vals           map[ssa.Value]bool
+	from           map[ssa.Value]ssa.Value // provenance for path reconstruction
+	fields         map[*types.Var]ssa.Value
+	globals        map[*ssa.Global]ssa.Value
+	rets           map[*ssa.Function]map[int]ssa.Value // tainted result indices per function
+	work           []ssa.Value
 
 	fieldLoads  map[*types.Var][]ssa.Value  // FieldAddr / Field instructions per field
 	globalLoads map[*ssa.Global][]ssa.Value // loads (UnOp) per global
@@ -414,6 +415,21 @@ func (t *Taint) call(ci ssa.CallInstruction, v ssa.Value) {
 		}
 	}
 	if !followed {
+		// sync.Map: a key does not taint the stored values (same rule as for built-in maps)
+		if f := CalleeFunc(ci); f != nil && f.Pkg() != nil && f.Pkg().Path() == "sync" {
+			if sig, ok := f.Type().(*types.Signature); ok && sig.Recv() != nil && strings.HasSuffix(sig.Recv().Type().String(), "sync.Map") {
+				switch f.Name() {
+				case "Store", "LoadOrStore", "Swap", "CompareAndSwap":
+					if len(args) >= 3 && args[1] == v && args[2] != v && !t.KeysTaintMaps {
+						return
+					}
+				case "Load", "LoadAndDelete", "Delete", "CompareAndDelete":
+					if len(args) >= 2 && args[1] == v && args[0] != v && !t.KeysTaintMaps {
+						return
+					}
+				}
+			}
+		}
 		// unknown / external callee: result derives from its arguments
 		if val := ci.Value(); val != nil {
 			t.Add(val, v)
